@@ -42,6 +42,34 @@ func c14Valid(t *xType, nodes []*xNode, hasSubs bool) bool {
 	if !hasSubs {
 		return false
 	}
+	// selections that share a response key must select the same field and agree
+	// on having sub-selections (fragments on the object contribute their fields)
+	type key struct {
+		name    string
+		hasSubs bool
+	}
+	seen := map[string]key{}
+	var collect func(ns []*xNode) bool
+	collect = func(ns []*xNode) bool {
+		for _, n := range ns {
+			switch n.kind {
+			case xnField:
+				k := key{n.name, n.hasSubs}
+				if prev, ok := seen[n.alias]; ok && prev != k {
+					return false
+				}
+				seen[n.alias] = k
+			case xnInline, xnSpread:
+				if !collect(n.subs) {
+					return false
+				}
+			}
+		}
+		return true
+	}
+	if !collect(nodes) {
+		return false
+	}
 	for _, n := range nodes {
 		switch n.kind {
 		case xnField:
@@ -138,7 +166,13 @@ func c14Leafish(name string, field string) *xNode {
 }
 
 func c14ItemNode(name string) *xNode {
-	switch nondet.Choice(name+".kind", 9) {
+	switch nondet.Choice(name+".kind", 12) {
+	case 9: // the alias x for a scalar, an enum or an object field: two of them conflict
+		return xAs("x", xF("v"))
+	case 10:
+		return xAs("x", xF("sub", xF("c")))
+	case 11:
+		return xAs("x", xF("e"))
 	case 0:
 		return c14Leafish(name, "v")
 	case 1:
